@@ -120,6 +120,11 @@ def gen_source(seed, complex_input=False, infinities=False):
             cands = [nm for nm in NAMES if nm not in used_names] or ["v%d" % i]
             name = rng.choice(cands)
             used_names.add(name)
+            if rng.random() < 0.15 and not expr[0].isdigit() and not expr.startswith(("-", "'")):
+                # the explicit naming API: a reference name of the user's choice, forced or not
+                rn = rng.choice([nm for nm in NAMES if nm not in used_names] or ["w%d" % i])
+                used_names.add(rn)
+                expr = "(%s).reference(ref_name=%r, force=%s)" % (expr, rn, rng.choice(["True", "False", "None"]))
             lines.append("%s = %s" % (name, expr))
             avail.append(name)
         else:
